@@ -29,8 +29,8 @@ def start(config=None) -> 'Deep':
     :param config: a custom config
     :return: the created Deep instance
     """
-    if config is None:
-        config = {}
+    # the dict is the caller's own object: we work on a copy, so we neither write into it nor follow later changes to it
+    config = dict(config) if config is not None else {}
 
     # we use the app root to shorten file paths for display
     if 'APP_ROOT' not in config:
